@@ -1,4 +1,4 @@
-\* static copy of the main exhaustive configuration of TSM.tla (the drivers c04/c05 generate theirs from tsmlib.consts)
+\* the behaviour of the pinned tree (all named deviations on): TLC must report SingleFaultRepaired violated
 SPECIFICATION Spec
 CONSTANTS
   NQ = 3
@@ -14,16 +14,16 @@ CONSTANTS
   DelayBy = 1
   SeqMod = 256
   MaxDrop = 1
-  MaxDup = 1
-  MaxDelay = 1
+  MaxDup = 0
+  MaxDelay = 0
   MaxNow = 1000000
   MaxShrink = 0
-  RecvMult = 4
-  ResendSeg0OnNoWin = TRUE
-  IndexFromSeq = FALSE
-  IgnoreStaleAck = TRUE
-  FinalAckAnyInWindow = FALSE
-  IdleAcceptsAnySeq = FALSE
+  RecvMult = 1
+  ResendSeg0OnNoWin = FALSE
+  IndexFromSeq = TRUE
+  IgnoreStaleAck = FALSE
+  FinalAckAnyInWindow = TRUE
+  IdleAcceptsAnySeq = TRUE
 INVARIANT AtMostOneOutcome
 INVARIANT ExactlyOneAtQuiescence
 INVARIANT OutcomeKind
@@ -37,7 +37,6 @@ INVARIANT WindowBound
 INVARIANT WindowRange
 INVARIANT ClientRxIsPrefix
 INVARIANT SingleFaultRepaired
-INVARIANT FaultFreeSucceeds
 PROPERTY SilenceAfterOutcome
 PROPERTY AbortOnlyAfterAllRetries
 PROPERTY NoDoubleIndicationWhileBusy
